@@ -372,7 +372,7 @@ def run_cases(ctx, exe, cases, cnt, var, cov, dist, distinct, nested=False):
     sans = pcp.par_model(ctx, "pcp", slines, timeout=1800)
     if not nested:
         ctx.log("specification evaluated")
-    errcases = []
+    errcases, deepcases = [], []
     for i, c in enumerate(cases):
         cov["evaluations"] += 1
         ans, crash = impl[i]
@@ -476,6 +476,9 @@ def run_cases(ctx, exe, cases, cnt, var, cov, dist, distinct, nested=False):
         m = pcp.parse_model(mans[i])
         if int(m["nent"]) != c["nent"]:
             ctx.disagreement("pcp expand", "flattened list has %s entries in the model, %d expected" % (m["nent"], c["nent"]), cj)
+        if (c.get("conflict") or c.get("overwrite")) and not c.get("fsz") and not c.get("refused") and not asname(c) \
+                and var.get("skipref", 0) and not nested:
+            deepcases.append((i, c, cj, f, replies, m))
         if all(r == "A" for r in replies) or (c.get("fsz") and not cp):
             dist["all_acks"] += 1
             # the receiver may end before the sender is done (top-level `E`): the real client then stops at the
@@ -503,7 +506,7 @@ def run_cases(ctx, exe, cases, cnt, var, cov, dist, distinct, nested=False):
             cov["samples"].append(dict(case=cj, spec=sp[:200]))
     # ---- the interactive paths: what the REAL client sent after error replies goes through the receiver model, and
     # for a plain file whose name is taken by a directory the client must have skipped exactly the data and the NUL
-    if errcases and not nested:
+    if (errcases or deepcases) and not nested:
         lines = []
         for i, c, cj, f, replies, m in errcases:
             lines.append("sink %d %d %o %d %d %d %d %s %s %s %s" % (
@@ -534,8 +537,7 @@ def run_cases(ctx, exe, cases, cnt, var, cov, dist, distinct, nested=False):
                 ctx.disagreement("pcp session file system", "; ".join(diffs[:4]), cj)
         # Pcp/Deep.lean (`error_isolated_deep`): the sources classified against the jail, the file system the theorem
         # says the receiver ends with and the number of error records it says are sent -- against the real run
-        deep = [(i, c, cj, f, replies, m) for i, c, cj, f, replies, m in errcases
-                if c.get("conflict") and not c.get("fsz") and not c.get("overwrite") and var.get("skipref", 0)]
+        deep = deepcases
         dlines = ["deep %d %d %o %d %d %d %d %s %s %d %s %d %d %d %s %s" % (
             c["p"], c["y"], c["um"], cnt, var["rule"], var["dch"], c.get("fsz", 0), hx(CWD), hx(c["dest"]),
             int(c["reverse"]), hx(c["host"]), var["ssec"], var["sfix"], len(ents_l[i]),
